@@ -634,13 +634,30 @@ Definition accept_syn (k : kernel) (listener_fd : N) (local remote : sockaddr) (
     end
   end.
 
-(* tcp.rs `handle_established` on the kernel *)
-Definition handle_established (k : kernel) (fd : N) (local remote : sockaddr) (t : tcb) (s : seg) : kernel :=
-  let '(t', send_ack) := tcb_on_seg (recv_cap (cfg k)) t s in
-  let k1 := upd_tcb k fd t' in
-  if send_ack then emit k1 (ack_of (recv_cap (cfg k)) local remote t') else k1.
+(* tcp.rs `handle_on_connection` without the RST arm, on the TCB: the new TCB
+   and what the kernel has to do besides storing it. *)
+Inductive conn_out := ONone | OAck | OHandshakeAck | OPush.
 
-(* tcp.rs `handle_on_connection` *)
+Definition tcb_on_conn (recv_cap : N) (t : tcb) (s : seg) : tcb * conn_out :=
+  match t_state t with
+  | SynSent =>
+      if f_syn s && f_ack s then
+        (mktcb Established (t_peer t) (snd_nxt t) (snd_una t) (win s) (seqn s + 1)
+               (send_buf t) (recv_buf t) (wr_closed t) (peer_fin t) (fin_seq t)
+               (reset t) (timed_out t) 0 0, OHandshakeAck)
+      else (t, ONone)
+  | SynReceived =>
+      if f_ack s && negb (f_syn s) then
+        if negb (ackn s =? snd_nxt t) then (t, ONone) else
+        (mktcb Established (t_peer t) (snd_nxt t) (snd_una t) (win s) (rcv_nxt t)
+               (send_buf t) (recv_buf t) (wr_closed t) (peer_fin t) (fin_seq t)
+               (reset t) (timed_out t) 0 0, OPush)
+      else (t, ONone)
+  | Closed => (t, ONone)
+  | _ => let '(t', a) := tcb_on_seg recv_cap t s in (t', if a then OAck else ONone)
+  end.
+
+(* tcp.rs `handle_on_connection` (+ `handle_established`) *)
 Definition handle_on_connection (k : kernel) (fd : N) (local remote : sockaddr) (s : seg) : kernel :=
   if f_rst s then abort_with k fd false else
   match lookup k fd with
@@ -649,25 +666,14 @@ Definition handle_on_connection (k : kernel) (fd : N) (local remote : sockaddr) 
     match s_tcb so with
     | None => k                                       (* expect() panic; excluded by index coherence *)
     | Some t =>
-      match t_state t with
-      | SynSent =>
-          if f_syn s && f_ack s then
-            let t' := mktcb Established (t_peer t) (snd_nxt t) (snd_una t) (win s) (seqn s + 1)
-                            (send_buf t) (recv_buf t) (wr_closed t) (peer_fin t) (fin_seq t)
-                            (reset t) (timed_out t) 0 0 in
-            emit (upd_tcb k fd t')
-                 (mk_ack local remote (snd_nxt t') (rcv_nxt t') (adv_window (recv_cap (cfg k)) 0))
-          else k
-      | SynReceived =>
-          if f_ack s && negb (f_syn s) then
-            if negb (ackn s =? snd_nxt t) then k else
-            let t' := mktcb Established (t_peer t) (snd_nxt t) (snd_una t) (win s) (rcv_nxt t)
-                            (send_buf t) (recv_buf t) (wr_closed t) (peer_fin t) (fin_seq t)
-                            (reset t) (timed_out t) 0 0 in
-            push_to_listener (upd_tcb k fd t') fd local
-          else k
-      | Closed => k
-      | _ => handle_established k fd local remote t s
+      let '(t', o) := tcb_on_conn (recv_cap (cfg k)) t s in
+      let k1 := upd_tcb k fd t' in
+      match o with
+      | ONone => k1
+      | OAck => emit k1 (ack_of (recv_cap (cfg k)) local remote t')
+      | OHandshakeAck =>
+          emit k1 (mk_ack local remote (snd_nxt t') (rcv_nxt t') (adv_window (recv_cap (cfg k)) 0))
+      | OPush => push_to_listener k1 fd local
       end
     end
   end.
@@ -1205,3 +1211,86 @@ Fixpoint run (w : world) (es : list ev) : world * list obs :=
 (* Entry point of the correspondence: all observations of a script. *)
 Definition run_enc (c : kcfg) (v : bool) (n : N) (es : list ev) : list obs :=
   snd (run (init_world c v n) es).
+
+(* ------------------------------------------------------------------ *)
+(* Connection-level system (C06): the two TCBs of one connection, the
+   segments in flight between them, and ghost byte strings (what each side's
+   application has had accepted by writes / been given by reads).  It uses
+   the very same per-TCB functions as the kernel above; the environment may
+   deliver any in-flight segment any number of times in any order
+   (`CDeliver` does not remove), drop it, and inject arbitrary control
+   segments (no payload, no FIN): RSTs, stale ACKs, duplicate SYN-ACKs.     *)
+
+Inductive side := SA | SB.
+Definition other (s : side) : side := match s with SA => SB | SB => SA end.
+Definition side_eqb (a b : side) : bool := match a, b with SA, SA | SB, SB => true | _, _ => false end.
+
+Record conn := mkconn {
+  ta : tcb; tb : tcb; cwire : list (side * seg);       (* (destination, segment) *)
+  wa : list N; wb : list N;                            (* ghost: bytes accepted from A's / B's writes *)
+  ra : list N; rb : list N }.                          (* ghost: bytes returned to A's / B's reads *)
+
+Definition tcb_of (c : conn) (s : side) : tcb := match s with SA => ta c | SB => tb c end.
+Definition written (c : conn) (s : side) : list N := match s with SA => wa c | SB => wb c end.
+Definition readb (c : conn) (s : side) : list N := match s with SA => ra c | SB => rb c end.
+Definition set_side (c : conn) (s : side) (t : tcb) (w r : list N) (extra : list (side * seg)) : conn :=
+  match s with
+  | SA => mkconn t (tb c) (cwire c ++ extra) w (wb c) r (rb c)
+  | SB => mkconn (ta c) t (cwire c ++ extra) (wa c) w (ra c) r
+  end.
+
+Definition pkt_segs (d : side) (ps : list packet) : list (side * seg) :=
+  flat_map (fun p => match body p with Tcp g => [(d, g)] | Udp _ _ _ => [] end) ps.
+
+Definition nowhere : sockaddr := (mkip false 0, 0).
+
+Inductive cev :=
+| CWrite (s : side) (bs : list N) | CRead (s : side) (n : N) | CShutdown (s : side)
+| CSegment (s : side) (mss : N) (fuel : nat) | CRetx (s : side)
+| CDeliver (i : nat) | CDrop (i : nat) | CInject (d : side) (g : seg).
+
+Definition cstep (k : kcfg) (c : conn) (e : cev) : conn :=
+  match e with
+  | CWrite s bs =>
+      let t := tcb_of c s in
+      let '(t', r) := tcb_send (send_cap k) t bs in
+      let acc := match r with Ready n => takeN n bs | _ => [] end in
+      set_side c s t' (written c s ++ acc) (readb c s) []
+  | CRead s n =>
+      let t := tcb_of c s in
+      let '(t', r, upd) := tcb_recv (recv_cap k) t n in
+      let got := match r with Ready bs => bs | _ => [] end in
+      set_side c s t' (written c s) (readb c s ++ got)
+               (if upd then pkt_segs (other s) [ack_of (recv_cap k) nowhere nowhere t'] else [])
+  | CShutdown s =>
+      let '(t', _) := tcb_shutdown (tcb_of c s) in set_side c s t' (written c s) (readb c s) []
+  | CSegment s mss fuel =>
+      let t := tcb_of c s in
+      if transmittable t then
+        let '(t', ps) := seg_loop fuel mss (recv_cap k) nowhere t in
+        set_side c s t' (written c s) (readb c s) (pkt_segs (other s) ps)
+      else c
+  | CRetx s =>
+      let '(t', a) := tcb_retx_tick (retx_threshold k) (retx_max k) (tcb_of c s) in
+      set_side c s (match a with RAbort => tcb_abort true t' | _ => t' end) (written c s) (readb c s) []
+  | CDeliver i =>
+      match nth_error (cwire c) i with
+      | None => c
+      | Some (d, g) =>
+        let t := tcb_of c d in
+        if f_rst g then set_side c d (tcb_abort false t) (written c d) (readb c d) [] else
+        let '(t', o) := tcb_on_conn (recv_cap k) t g in
+        set_side c d t' (written c d) (readb c d)
+          (match o with
+           | OAck => pkt_segs (other d) [ack_of (recv_cap k) nowhere nowhere t']
+           | OHandshakeAck => pkt_segs (other d) [mk_ack nowhere nowhere (snd_nxt t') (rcv_nxt t') (adv_window (recv_cap k) 0)]
+           | _ => [] end)
+      end
+  | CDrop i => mkconn (ta c) (tb c) (remove_nth (cwire c) i) (wa c) (wb c) (ra c) (rb c)
+  | CInject d g =>
+      if is_nil (payload g) && negb (f_fin g) then
+        mkconn (ta c) (tb c) (cwire c ++ [(d, g)]) (wa c) (wb c) (ra c) (rb c)
+      else c
+  end.
+
+Definition crun (k : kcfg) (c : conn) (es : list cev) : conn := fold_left (cstep k) es c.
